@@ -161,6 +161,8 @@ watchers:
 	type op struct{ kind, file string }
 	ops := []op{{"write", "watched"}, {"write", "excluded"}, {"write", "unrelated"}, {"chmod", "watched2"}, {"write", "watched"}, {"write", "watched2"}}
 	rng.Shuffle(len(ops)-2, func(a, b int) { ops[a], ops[b] = ops[b], ops[a] })
+	// a watched file is renamed away (rename is not subscribed: no run), the watcher must keep serving
+	ops = append(ops, op{"rename", "watched2"}, op{"write", "watched"}, op{"chmod", "watched"})
 	var want []string
 	var replay []string
 	for _, o := range ops {
@@ -171,10 +173,12 @@ watchers:
 			f.WriteString("more")
 			f.Close()
 		case "chmod":
-			os.Chmod(p, 0600)
+			os.Chmod(p, 0600+os.FileMode(len(replay)%2)*0040)
+		case "rename":
+			os.Rename(p, p+".renamed")
 		}
 		replay = append(replay, o.kind+":"+o.file)
-		if o.file == "watched" || o.file == "watched2" {
+		if (o.file == "watched" || o.file == "watched2") && o.kind != "rename" {
 			want = append(want, fmt.Sprintf("RAN %s %s", o.kind, p))
 		}
 		// the serve loop polls once a second and handles one event per iteration
